@@ -60,9 +60,20 @@ def outcome_str(tr: Trace) -> str | None:
     return None
 
 
-def runner_lines(tr: Trace) -> tuple[list[str], list[str]]:
+def _lifecycle(tr: Trace, upto_idx: int | None = None) -> str:
+    """the StepStateChanged events the runner wrote to the stream (in order), optionally only those written before
+    `upto_idx` reducer calls had been made"""
+    from workflows.events import StepStateChanged
+
+    return enc.lst([enc.pub(e) for (e, _t, idx, origin) in tr.stream
+                    if origin == "runner" and isinstance(e, StepStateChanged) and (upto_idx is None or idx <= upto_idx)])
+
+
+def runner_lines(tr: Trace, lifecycle: bool = False) -> tuple[list[str], list[str]]:
     """The whole run as runner-LTS actions; expected outputs from the implementation's
-    recorded runner internals (buffer, timer heap, workers, stream length) at every tick."""
+    recorded runner internals (buffer, timer heap, workers, stream length) at every tick.
+    `lifecycle` (C35): additionally compare the CONTENT of the lifecycle telemetry on the stream -- right after
+    start-up (what the rewind of a fresh / restored state announces) and after the last processed tick."""
     from workflows.runtime.types import ticks as T
 
     ops: list[str] = []
@@ -77,6 +88,8 @@ def runner_lines(tr: Trace) -> tuple[list[str], list[str]]:
     start = tr.start_event
     ops.append("rinit %s %s %s" % (enc.num(first.now), enc.opt_ev(start), enc.num(timeout)))
     outs.append("ok")
+    if lifecycle:
+        ops.append("rlife"); outs.append(_lifecycle(tr, upto_idx=tr.calls.index(first) + 1))
     puts = list(tr.puts)
     issued = 0
     # ctx.send_event calls of scripted steps: event object -> (sending step, its worker id)
@@ -116,6 +129,8 @@ def runner_lines(tr: Trace) -> tuple[list[str], list[str]]:
         else:
             res = enc.result_line(c.after, c.cmds)
         outs.append(enc.tick(tk) + " @@ " + _summary(c.runner, c.stream_len) + " => " + res)
+    if lifecycle:
+        ops.append("rlife"); outs.append(_lifecycle(tr))
     # the adapter's tick log (what ctx.to_dict()/replay is rebuilt from) is the model's log
     if tr.handler is not None:
         try:
